@@ -50,8 +50,10 @@ def compose_oracle(p1, p2, noal, mt, vals):
             m2, _ = run(p2, accesses=a2)
             if noal:
                 # the accesses of the composition: those of P1, and those of P2 with their pointers taken through m1
+                # (m2 itself was built assuming that *its* distinct bases do not overlap in the state it is applied to)
                 acc = list(a1) + [(m1(p), n) for p, n in a2]
-                if map_check.overlap_of_distinct_zones(acc, st0) is not False:
+                if (map_check.overlap_of_distinct_zones(acc, st0) is not False
+                        or map_check.overlap_of_distinct_zones(a2, st1) is not False):
                     return "skip-distinct-bases-overlap", None
             mm = m1 >> m2
             c = concrete_mapper(st0, [(a, n) for _, a, n in st.accesses])
